@@ -444,7 +444,8 @@ impl TargetScheme for Expression {
             Expression::Action(a) => a.compile(buffer, ctx),
             Expression::Operator(o) => o.as_ref().compile(buffer, ctx),
             Expression::Positional(p) => p.compile(buffer, ctx),
-            Expression::Global(_) => unreachable!(),
+            // The parser folds global options into RunOptions; one left in a tree cannot be expressed
+            Expression::Global(g) => Err(CompileError::UnsupportedOption(format!("{g:?}"))),
         }
     }
 }
